@@ -406,8 +406,7 @@ def eval15(f, with_install=True):
         index_only = []
         if f["absent"]:
             # the index table announces one more ISEL than there are data blocks
-            pairs = W._PAIRS_H if style == "hydrogen" else W._PAIRS_X
-            up, lo = pairs[-1]
+            up, lo = W.PAIR_ABSENT_H if style == "hydrogen" else W.PAIR_ABSENT_X
             index_only = [{"isel": f["nblocks"] + 1, "wavelength": 4321.0, "upper": up, "lower": lo, "type": "EXCIT"}]
         path = os.path.join(d, fname)
         truth = W.write_adf15(path, blocks, style=style, levels=W.LEVELS, a_style=f["a"], index_extra=bool(f["extra"]), index_only=index_only,
